@@ -30,6 +30,12 @@ where
     T: BalanceSelector + ?Sized,
 {
     txns.iter()
+        // Group by key, not by consecutive runs of equal keys: the transactions are
+        // ordered by instant, and in a report time zone whose clock is set back over
+        // midnight (e.g. America/Goose_Bay on 2010-11-07, 00:01 -> 23:01 of the previous
+        // day) the same local date, week or month can occur in two separate runs.
+        // The sort is stable, so the members of a group stay in transaction order.
+        .sorted_by_cached_key(|txn| group_by_op(txn))
         .chunk_by(|txn| group_by_op(txn))
         .into_iter()
         // .par // todo: par-map
@@ -38,7 +44,6 @@ where
                 .expect("Logic error with Balance Group: inner balance failed")
         })
         .filter(|bal| !bal.is_empty())
-        .sorted_by_key(|bal| bal.title.clone())
         .collect()
 }
 
